@@ -30,6 +30,7 @@ EXPLANATION = (
     ' (22) SIB: every inversion of a relative size (child * 100 / percent) in the widget layer rounds to the nearest cell, so pack() and the padding computation of render() agree on the total (fix b429ef1: Padding.pack(()) == (17, 1) but render(()).cols() == 16).'
     ' (23) RUNPOS: every (value, length) run written by hand into a canvas (ProgressBar.render -> _attr / _cs) has a length that the dominating tests show positive - linear atoms from the tests, entailment of L > 0 (fix 31a962b: [(complete, 0), (normal, maxcol)] made content() yield an empty row).'
     ' (24) MEMO: a hand-written dict memo (if K in self.D: return self.D[K] ... self.D[K] = v) whose value depends on a module global that a setter rebinds has such a global in its key (fix 39ac3d2: Font.render cached glyph canvases by character alone although their bytes come from apply_target_encoding()).'
+    ' Round 6: (25) SIB: the rows cut off below the focus (max(E, 0)) and the rows free below it (-E) in ListBox.calculate_visible are computed from the same state; (26) BOUND: BarGraph width lists built as [w] * n are bounded by the available columns.'
 )
 NOT_DECIDED = (
     "That composed canvases actually have the requested size for all trees/sizes/texts (value semantics of shards, layout and padding); truthfulness of sizing(); wide-character column "
@@ -425,6 +426,103 @@ def rule_inverse_percent(ctx: Ctx) -> RuleResult:
     return rr
 
 
+def rule_complementary_quantities(ctx: Ctx) -> RuleResult:
+    """ListBox.calculate_visible() derives two complementary numbers from the position of the focus widget's bottom
+    edge E = focus_rows + offset_rows - inset_rows - maxrow: the rows of the focus widget cut off at the bottom,
+    trim_bottom = max(E, 0), and the rows still free below it, fill_lines = -E.  Both must be taken from the *same*
+    state: no variable of E is reassigned on a path from one computation to the other (step 2 lowers offset_rows
+    when the widgets above run out - a trim_bottom computed before that makes render() cut rows that are visible:
+    'Listbox contents too short').  Generic form: X = max(E, 0) and Y = -E (as linear forms) in one function."""
+    from ..rules.util import lin_str, linear
+
+    p = ctx.p
+    rr = RuleResult("SIB", "C01.25", "complementary quantities max(E, 0) and -E (rows cut off below / rows free below the focus) are computed from the same state: no variable of E is reassigned between the two", floor=1)
+    for fi in p.functions.values():
+        if fi.module.name != "urwid.widget.listbox" or fi.is_lambda:
+            continue
+        cfg = None
+        maxes = []
+        for n in fi.own_nodes():
+            if isinstance(n, ast.Assign) and isinstance(n.value, ast.Call) and callee_name(n.value) == "max" and len(n.value.args) == 2:
+                for a, b in (n.value.args, n.value.args[::-1]):
+                    if isinstance(b, ast.Constant) and b.value == 0:
+                        e = linear(a)
+                        if e and len([k for k in e if k]) >= 3:
+                            maxes.append((n, e))
+        if not maxes:
+            continue
+        for n2 in fi.own_nodes():
+            if not (isinstance(n2, ast.Assign) and not isinstance(n2.value, ast.Call)):
+                continue
+            e2 = linear(n2.value)
+            if not e2:
+                continue
+            for n1, e1 in maxes:
+                if e2 != {k: -v for k, v in e1.items()}:
+                    continue
+                cfg = cfg or cfg_of(fi)
+                a = next((x for x in cfg.nodes if x.stmt is n1), None)
+                b = next((x for x in cfg.nodes if x.stmt is n2), None)
+                if a is None or b is None:
+                    continue
+                first, second = (a, b) if b in cfg.reachable([a]) else (b, a)
+                names = {k for k in e1 if k}
+                between = cfg.reachable([first], avoid=[second]) & {x for x in cfg.nodes if second in cfg.reachable([x])}
+                writes = []
+                for x in between:
+                    if x is first or x.ast is None:
+                        continue
+                    st = x.ast
+                    tg = []
+                    if isinstance(st, ast.Assign):
+                        tg = [t for t in st.targets]
+                    elif isinstance(st, ast.AugAssign):
+                        tg = [st.target]
+                    for t in tg:
+                        for nm in ast.walk(t):
+                            if isinstance(nm, ast.Name) and nm.id in names:
+                                writes.append(x)
+                ident = f"{short(fi)}: {norm(n1, 40)} / {norm(n2, 40)}"
+                rr.inst(ident, True, {"cut_off": norm(n1, 70), "free": norm(n2, 70), "E": lin_str(e1), "reassigned_in_between": [norm(w.stmt, 40) for w in writes]})
+                if writes:
+                    rr.add(finding("SIB", fi, n1 if first is a else n2, f"`{norm(first.stmt, 60)}` and `{norm(second.stmt, 60)}` are the two readings of the same edge position ({lin_str(e1)}), but `{norm(writes[0].stmt, 40)}` changes one of its variables between them: the rows cut off and the rows free below no longer describe the same layout - render() trims rows that are visible (ListBoxError 'Listbox contents too short') after the rows above the focus shrank", construct="complementary quantities computed from different states"))
+    return rr
+
+
+def rule_repeat_bound(ctx: Ctx) -> RuleResult:
+    """BarGraph.calculate_bar_widths() answers with a list of bar widths whose sum must not exceed the columns it was
+    given (the display rows are built from it and rendered as Text at exactly maxcol).  A result of the form
+    `[w] * n` has sum w * n: n is the available width itself (for w == 1) or `min(.., maxcol // w)` - not the number
+    of bars (more bars than columns: every display row would be wider than maxcol, render() raises)."""
+    p = ctx.p
+    rr = RuleResult("BOUND", "C01.26", "a width list built as [w] * n is bounded by the available columns: n is maxcol (w == 1) or min(.., maxcol // w)", floor=2)
+    fi = p.func("urwid.widget.bar_graph.BarGraph.calculate_bar_widths")
+    size_elems = set()
+    for n in fi.own_nodes():
+        if isinstance(n, ast.Assign) and isinstance(n.value, ast.Name) and n.value.id in fi.params and isinstance(n.targets[0], (ast.Tuple, ast.List)):
+            size_elems |= {e.id for e in n.targets[0].elts if isinstance(e, ast.Name)}
+    width = sorted(size_elems)[0] if size_elems else None
+    first = next((e.id for n in fi.own_nodes() if isinstance(n, ast.Assign) and isinstance(n.value, ast.Name) and n.value.id in fi.params and isinstance(n.targets[0], (ast.Tuple, ast.List)) for e in n.targets[0].elts[:1] if isinstance(e, ast.Name)), None)
+    if first is None:
+        raise AnalysisError("calculate_bar_widths: the unpacking of size was not found")
+    for r in [n for n in fi.own_nodes() if isinstance(n, ast.Return) and isinstance(n.value, ast.BinOp) and isinstance(n.value.op, ast.Mult)]:
+        lst, cnt = (r.value.left, r.value.right) if isinstance(r.value.left, ast.List) else (r.value.right, r.value.left)
+        if not (isinstance(lst, ast.List) and len(lst.elts) == 1):
+            continue
+        w = lst.elts[0]
+        ok = False
+        if isinstance(w, ast.Constant) and w.value == 1 and isinstance(cnt, ast.Name) and cnt.id == first:
+            ok = True
+        if isinstance(cnt, ast.Call) and callee_name(cnt) == "min":
+            for a in cnt.args:
+                if isinstance(a, ast.BinOp) and isinstance(a.op, ast.FloorDiv) and isinstance(a.left, ast.Name) and a.left.id == first and ast.unparse(a.right) == ast.unparse(w):
+                    ok = True
+        rr.inst(norm(r, 60), True, {"return": norm(r, 70), "width": ast.unparse(w), "count": ast.unparse(cnt), "bounded_by_available_columns": ok})
+        if not ok:
+            rr.add(finding("BOUND", fi, r, f"`{norm(r, 70)}` returns {ast.unparse(cnt)} bars of width {ast.unparse(w)}: nothing bounds their sum by `{first}` - with more bars than columns every display row is wider than the graph and render() raises BarGraphError for a valid size", construct=f"bar widths [{ast.unparse(w)}] * {ast.unparse(cnt)} not bounded by {first}"))
+    return rr
+
+
 def rule_trim_drops_cursor(ctx: Ctx) -> RuleResult:
     """'a cursor, if present, lies inside the canvas': the methods of CompositeCanvas that cut rows or columns away
     (they call shards_trim_top / shards_trim_rows / shards_trim_sides) move the cursor coordinates with the content;
@@ -498,6 +596,8 @@ def run(ctx: Ctx):
         rule_trim_drops_cursor(ctx),
         rule_overlay_position(ctx),
         rule_inverse_percent(ctx),
+        rule_complementary_quantities(ctx),
+        rule_repeat_bound(ctx),
         runpos.run_runpos(ctx.p, "C01.23", ("urwid.widget",), floor=7),
         memo.run_dict_memo(ctx.p, "C01.24", ("urwid",), floor=1),
     ]
@@ -508,6 +608,8 @@ _COLS = "urwid/widget/columns.py"
 _CANV = "urwid/canvas.py"
 _TEXT = "urwid/widget/text.py"
 MUTANTS = [
+    Mut("bargraph-one-width-per-bar", "urwid/widget/bar_graph.py", "BarGraph.calculate_bar_widths", "            return [1] * maxcol", "            return [1] * len(bardata)", "BOUND|widget.bar_graph.BarGraph.calculate_bar_widths|bar widths [1] * len(bardata) not bounded by maxcol"),
+    Mut("listbox-trim-bottom-before-offset-final", "urwid/widget/listbox.py", "ListBox.calculate_visible", "        focus_rows = focus_widget.rows((maxcol,), True)\n\n        # 2. collect the widgets above the focus", "        focus_rows = focus_widget.rows((maxcol,), True)\n        trim_bottom = max(focus_rows + offset_rows - inset_rows - maxrow, 0)\n\n        # 2. collect the widgets above the focus", "SIB|widget.listbox.ListBox.calculate_visible|complementary quantities computed from different states", also=[("        trim_bottom = max(focus_rows + offset_rows - inset_rows - maxrow, 0)\n\n        # 3. collect", "        # 3. collect")]),
     Mut("font-glyph-cache-by-character-only", "urwid/font.py", "Font.render", "        key = (character, get_encoding())\n", "        key = character\n", "MEMO|font.Font.render|dict memo self.canvas ignores"),
     Mut("twin-font-cache-key-inline", "urwid/font.py", "Font.render", "        key = (character, get_encoding())\n", "        key = (get_encoding(), character)\n", twin=True),
     Mut("progressbar-empty-complete-run", "urwid/widget/progress_bar.py", "ProgressBar.render", "        elif ccol == 0:\n            # less than one column complete and no room for the smoothing character: no (empty) complete run\n            c._attr = [[(self.normal, maxcol)]]\n", "", "RUNPOS|widget.progress_bar.ProgressBar.render|run length ccol not shown positive"),
